@@ -150,7 +150,7 @@ PROPS = {
         level_text="Dispatch tables, GREASE/Unknown preservation, exact consumption, 'length beyond the block never yields a value', agreement of the three dispatchers and tag == wire type: unbounded deductive proof (Verus) on the real dispatcher bodies for all 65536 types and all data lengths, content parsers abstract. Content parsers, tag-specific parsers and list parsers: contracts checked by Kani on the compiled code, complete in byte contents and in every u8/u16 parameter, bounded in input length (bounded model checking, not proof).",
         level_note="Trusted: nom shim contracts be_u16/length_data (assumed in Verus, checked by Kani shim_* harnesses on the real nom); each content parser is an uninterpreted function in Verus with the single assumed fact 'on success it returns its own variant', which is an obligation of that parser's Kani leaf harness; IANA code-point table transcribed by hand (verus/units/dispatch_ext.py TABLE); rewrites R0, R5, R6, R8 (From::from lifted to a free fn).",
         technique="contract-based deductive verification: Verus postconditions on extracted dispatchers + Kani contract harnesses per content parser",
-        verus=["dispatch_ext", "ext_lists", "bodies"],
+        verus=["dispatch_ext", "ext_lists", "bodies", "ext_contents", "ext_lists2"],
         kani=[dict(quick=["fd_ext_max_fragment_length", "fd_ext_heartbeat", "fd_ext_record_size_limit", "fd_ext_encrypt_then_mac", "fd_ext_extended_master_secret",
                           "fd_ext_post_handshake_auth", "fd_ext_npn", "leaf_ext_ec_point_formats", "leaf_ext_renegotiation_info", "leaf_ext_psk_modes", "leaf_ext_sct",
                           "leaf_ext_unknown", "leaf_ext_elliptic_curves", "leaf_named_groups", "leaf_ext_signature_algorithms", "leaf_ext_alpn", "leaf_ext_sni", "leaf_ext_esni",
@@ -278,7 +278,7 @@ PROPS = {
         level_text="For each enumerated code point the property lists, the hosting function's contract contains the conjunct 'field == the raw integer at its offset' and the harness leaves that byte/word fully symbolic and unconstrained, so the conjunct is decided for all 256 / 65536 values: record type and version (fd_record_header, Verus frame), alert level/description (fd_msg_alert), heartbeat type, ClientHello/ServerHello versions, cipher-suite and compression ids, extension type (Verus dispatch_ext: Unknown(type, data) for every unrecognised type; leaf_ext_unknown), named groups, signature/hash algorithms, SNI name type, certificate-status type, PSK modes, EC point formats, CT version, key-update value, DTLS header fields. Complete in the field value; bounded in the length of the surrounding structure (except the Verus units, unbounded).",
         level_note="Certificate types of CertificateRequest are hosted by leaf_hs_certificate_request, which only runs in the thorough tier (768 s). No harness assumes anything about a listed field (assumption scan: vassume! is only applied to lengths/selectors).",
         technique="contract conjuncts over fully symbolic enumerated fields: Kani harnesses + Verus postconditions",
-        verus=["frame", "dispatch_ext"],
+        verus=["frame", "dispatch_ext", "ext_contents", "ext_lists2", "messages", "bodies"],
         kani=[dict(quick=["fd_record_header", "fd_raw_record_small", "fd_encrypted_small", "fd_msg_alert", "leaf_msg_heartbeat", "mod_client_hello", "leaf_cipher_suites", "leaf_compressions",
                           "leaf_hs_server_hello_msg", "leaf_hs_hello_retry_request", "leaf_ext_unknown", "leaf_named_groups", "leaf_ext_elliptic_curves", "leaf_ext_signature_algorithms",
                           "leaf_digitally_signed", "leaf_ext_sni", "leaf_ext_status_request", "leaf_hs_certificatestatus", "leaf_ext_psk_modes", "leaf_ext_ec_point_formats",
@@ -291,7 +291,7 @@ PROPS = {
         level_text="'f(b) returns' = every compiler-inserted check (slice bounds, arithmetic overflow, unwrap/expect, debug_assert, unreachable) reachable from the function is discharged. Verus discharges them for all inputs on the extracted bodies (record framing, plaintext glue, handshake / extension / DTLS dispatchers, record-payload containers, multi-record parsers) and - with NO precondition on the object state, hence for every finite call sequence - on all four TlsRecordsParser methods, including the 10 MiB buffer bound. Kani discharges them on the compiled code (crate + nom + core, overflow checks and debug assertions on) for every body/content/leaf parser, with each manual index/subtraction guard site driven by its numeric parameter over the full usize/u16 domain (len-4, ext_len-1, len%2, len>i.len(), chunk[1], take(32)->[u8;32] expect, heartbeat len<3); bounded in input length.",
         level_note="NOT decided: the heap-use bound (neither verifier has a resource model; only the defragmenter's buffer cap is proved); Debug/Display of structured values (core::fmt is beyond CBMC's budget; tls_debug.rs has no indexing and one multiplication dh_g.len()*8 bounded by the parser's u16 length; registry newtypes' Display/Debug run for every value in the C17 stand-in); termination of nom's many0/many1 loops beyond the stated input bounds (their progress guard is in nom's source; the shim harnesses exercise it).",
         technique="contract-based deductive verification (Verus, unbounded) + Kani panic-freedom obligations on the compiled code (bounded length)",
-        verus=["defrag", "frame", "plaintext", "many", "dispatch_hs", "dispatch_ext", "ext_lists", "bodies", "messages", "sct", "dtls", "dtls_many"],
+        verus=["defrag", "frame", "plaintext", "many", "dispatch_hs", "dispatch_ext", "ext_lists", "bodies", "messages", "ext_contents", "ext_lists2", "sct", "dtls", "dtls_many"],
         kani=[dict(quick=["leaf_cipher_suites", "leaf_compressions", "leaf_tls_versions", "leaf_named_groups", "leaf_hs_newsessionticket", "leaf_ext_status_request", "leaf_ext_supported_versions",
                           "leaf_sct_entry", "leaf_msg_heartbeat", "leaf_prwh_heartbeat", "leaf_prwh_appdata", "fd_raw_record_small", "mod_client_hello", "mod_dtls_client_hello",
                           "leaf_hs_certificate", "leaf_ext_sni", "leaf_ec_parameters", "fd_dtls_header", "fd_defrag_default"],
